@@ -430,7 +430,7 @@ def _plan(tier):
 
 def run(rep: Report):
     tier = rep.tier
-    opts = {"prove_timeout_ms": 10000, "fork_timeout_ms": 700, "seed": rep.seed, "scenario_wall_s": 240 if tier == "quick" else 900}
+    opts = {"prove_timeout_ms": 10000, "fork_timeout_ms": 700, "seed": rep.seed, "scenario_wall_s": 900 if tier == "quick" else 900}
     run_plan(rep, _plan(tier), SCENARIOS, opts)
     rep.bounds = {"seed": "symbolic integer >= 0 (unbounded); plus 15 concrete seeds at the 31/32/53/63/64/128-bit boundaries", "drivers": list(DRIVERS), "steps": "1 step (1 cycle) with the shipped default moves, 2 atoms"}
     rep.assumptions = ["numpy PCG64/Generator replaced by recording stubs (the bit-level stream is numpy's business)", "foreign entropy = numpy global generator functions, unseeded default_rng, Python random, time, os.urandom called directly from quansino source"]
